@@ -4,6 +4,7 @@ import (
 	"fmt"
 	"os"
 	"strings"
+	"sync/atomic"
 	"testing"
 	"time"
 
@@ -174,7 +175,10 @@ func runC20Scan(c C20ScanCase, ev *vt.Ev) *vt.Failure {
 	var gapErr string
 	admin, gaps := 0, 0
 	labels := map[string]bool{"engine=" + c.Engine: true}
+	var inGap int32 // the scan goroutine is inside the harness's Send hook, not inside the emulator
 	onSend := func(n int) error {
+		atomic.StoreInt32(&inGap, 1)
+		defer atomic.StoreInt32(&inGap, 0)
 		if n-1 >= len(c.Gaps) || gapErr != "" {
 			return nil
 		}
@@ -184,9 +188,12 @@ func runC20Scan(c C20ScanCase, ev *vt.Ev) *vt.Failure {
 		for _, st := range c.Gaps[n-1] {
 			for _, op := range st.ops(&c, n) {
 				done := make(chan *bt.Result, 1)
-				go func() { done <- s.Exec(op) }()
-				select {
-				case r := <-done:
+				fin := make(chan struct{})
+				go func() { done <- s.Exec(op); close(fin) }()
+				// s.Exec reports a request that is blocked for good itself (HANG); this only bounds a machine too slow to judge
+				vt.Await(fin, 120*time.Second, nil, "request issued while the scan is parked")
+				{
+					r := <-done
 					if r.Panic != "" {
 						gapErr = fmt.Sprintf("%s issued while the scan was parked in Send #%d panicked: %s", op.K, n, r.Panic)
 						return nil
@@ -196,9 +203,6 @@ func runC20Scan(c C20ScanCase, ev *vt.Ev) *vt.Failure {
 						return nil
 					}
 					snapshot()
-				case <-time.After(30 * time.Second):
-					gapErr = fmt.Sprintf("%s issued while the scan was parked in Send #%d was not answered within 30s", op.K, n)
-					return nil
 				}
 			}
 			if st.K != "write" && st.K != "bigwrite" {
@@ -209,13 +213,23 @@ func runC20Scan(c C20ScanCase, ev *vt.Ev) *vt.Failure {
 		return nil
 	}
 	scanDone := make(chan *bt.Result, 1)
-	go func() { scanDone <- s.ExecCtx(nil2ctx(), &bt.Op{K: "ReadRows", Table: tbl, Rows: rs}, onSend) }()
-	var got *bt.Result
-	select {
-	case got = <-scanDone:
-	case <-time.After(120 * time.Second):
-		return vt.Failf("C20", "the scan did not finish within 120s")
+	scanFin := make(chan struct{})
+	var scanG vt.GoidSet
+	go func() {
+		scanG.Add()
+		scanDone <- s.ExecCtx(nil2ctx(), &bt.Op{K: "ReadRows", Table: tbl, Rows: rs}, onSend)
+		close(scanFin)
+	}()
+	scanIDs := func() []int64 {
+		if atomic.LoadInt32(&inGap) == 1 {
+			return nil
+		}
+		return scanG.IDs()
 	}
+	if mis := vt.Await(scanFin, 120*time.Second, scanIDs, "scan"); mis != "" {
+		return vt.Failf("C20", "the scan did not finish (hang): %s", mis)
+	}
+	got := <-scanDone
 	if gapErr != "" {
 		return vt.Failf("C20", "%s", gapErr)
 	}
